@@ -250,22 +250,68 @@ class SP_inverseJacobian(_SPObj):
                 g.eq('d(length %d)/d(twist) . V = row %d . V' % (i, i), dl[i], S.dotv(list(J[i, :]), list(V)))
 
 
+def move_by_contract(g, sp):
+    """replace sp.move by its contract (SP_move_coherent): bottom pose = the new base, relative plate pose kept, joint
+    tables in space / leg lengths / relative transform coherent with the plate-local tables CURRENTLY bound.
+    The contract is proved for protect=True; spinCustom calls move unprotected, where it additionally runs validate():
+    assumed to accept (the relative plate pose during a re-spin is the one the platform already had)."""
+    tmc = g.module(TMM).tm
+
+    def move(new_pos, protect=False):
+        Mb0, Mt0 = sp.getBottomT().gTM(), sp.getTopT().gTM()
+        rel = S.mm(S.inv_SE3(Mb0), Mt0)
+        Mn = new_pos.gTM().copy()
+        Mt = S.mm(Mn, rel)
+        L, B, Tp = spec_ik(Mn, Mt, sp._bottom_joints_local, sp._top_joints_local)
+        sp._current_plate_transform_local = tmc(rel)
+        sp._base_pos_global = new_pos.copy()
+        sp._end_effector_pos_global = tmc(Mt)
+        sp._bottom_joints_space = S.arr([[B[i][k] for i in range(6)] for k in range(3)])
+        sp._top_joints_space = S.arr([[Tp[i][k] for i in range(6)] for k in range(3)])
+        sp.lengths = S.arr([[L[i]] for i in range(6)])
+    sp.move = move
+
+
 @register
-class SP_spin_tables(SPC):
-    """spinCustom(angle): the plate-local joint tables used by the Newton forward kinematics (captured at construction)
-    must describe the re-spun platform: _bottom_joints_init = _bottom_joints_local^T, likewise for the top"""
-    prop = 'C09'
-    tier = 'off'          # spinCustom runs validate/corrective actions (fsolve): not modelled; finding F20 not examined
+class SP_spin_tables(_SPObj):
+    """spinCustom(angle), checked against the contract of move (callee contract, not its body): the plate-local joint
+    tables are the old ones turned by the angle about the plate normal (heights kept), the tables used by the Newton
+    forward kinematics (captured at construction) describe the re-spun platform, the plate poses are unchanged and the
+    published state is coherent with the new tables"""
+    prop = ('C09', 'C10')
+    tier = 'quick'
     target = SPM + ':SP.spinCustom'
-    shape_bound = 'one fixed hexagonal geometry (rational joint coordinates); spin angle in [0.1, 3]'
+    under_contract = (SPM + ':SP.move (by its contract SP_move_coherent)',)
+    shape_bound = 'one fixed hexagonal geometry (rational joint coordinates); spin angle in [0.1, 3]; any base pose'
+    timeout = 60.0
 
     def run(self, g, fn, args, kwargs):
         sp = test_platform(g)
         ang = g.real('a', lo=0.1, hi=3.0)
+        b, Mb = frame(g, 'b')
+        bj0, tj0 = sp._bottom_joints_local.copy(), sp._top_joints_local.copy()
+        if g.symbolic:
+            stubs.ghost_of(g.ctx).body_exp = True      # exp of the spin vector (0, 0, angle): the real body, not a fresh result
+            move_by_contract(g, sp)
+            sp.move(b)
+        else:
+            sp.move(b, protect=True)
+        Mb0, Mt0 = sp.getBottomT().gTM().copy(), sp.getTopT().gTM().copy()
         sp.spinCustom(ang)
-        return sp
+        return sp, ang, bj0, tj0, Mb0, Mt0
 
-    def post(self, g, sp, args, kwargs):
+    def post(self, g, out, args, kwargs):
+        sp, ang, bj0, tj0, Mb0, Mt0 = out
         z = zone(g)
-        g.eq('Newton-FK table of the bottom joints = current plate-local bottom joints' + z, sp._bottom_joints_init, sp._bottom_joints_local.T)
-        g.eq('Newton-FK table of the top joints = current plate-local top joints' + z, sp._top_joints_init, sp._top_joints_local.T)
+        c, s_ = S.cos(ang), S.sin(ang)
+        for nm, old, new in (('bottom', bj0, sp._bottom_joints_local), ('top', tj0, sp._top_joints_local)):
+            for i in range(6):
+                want = [c * old[0, i] - s_ * old[1, i], s_ * old[0, i] + c * old[1, i], old[2, i]]
+                g.eq('%s joint %d: plate-local point turned by the angle about the plate normal%s' % (nm, i, z), new[:, i],
+                     S.arr(want), tol=5e-6)
+        g.eq('Newton-FK table of the bottom joints = current plate-local bottom joints', sp._bottom_joints_init, sp._bottom_joints_local.T)
+        g.eq('Newton-FK table of the top joints = current plate-local top joints', sp._top_joints_init, sp._top_joints_local.T)
+        g.eq('spinCustom leaves the bottom pose unchanged' + z, sp.getBottomT().gTM(), Mb0, tol=5e-6)
+        g.eq('spinCustom leaves the top pose unchanged' + z, sp.getTopT().gTM(), Mt0, tol=5e-6)
+        if not z:
+            self.coherent(g, sp, sp.getBottomT().gTM(), sp.getTopT().gTM(), 'after spinCustom')
